@@ -1010,7 +1010,7 @@ func armNegative(r *mon.Run, nBodies, shards int) {
 					res[s].idx = append(res[s].idx, [2]int{i, op})
 				}
 			}
-			res[s].outs, res[s].err = wb.RunPartitioned("c01neg", inputs, declared, 500, 5*time.Minute)
+			res[s].outs, res[s].err = wb.RunPartitioned("c01neg", inputs, declared, 400, 20*time.Minute)
 		}(s)
 	}
 	wg.Wait()
